@@ -277,6 +277,70 @@ def steps(case, result):
     result.append((out, nt))
 
 
+def run_badcode(case):
+    """A pipelined batch (MAIL, RCPT x n) in which ONE reply carries a three-digit code that is no SMTP code: the flush that
+    meets it fails with BadReply - and only that reply is gone. The caller carries on (RSET, QUIT): every other reply object
+    still ends up holding the reply to its own command, and nothing is read past the owed replies."""
+    lmtp, n, bad, sync = bool(case['lmtp']), int(case['n']), int(case['bad']), case['sync']
+    script = [('220', ['banner']), ('250', ['greeting', 'PIPELINING'])]
+    for k in range(n + 1):
+        code = str(case['code']) if k == bad else ('250' if k % 2 == 0 else '550')
+        script.append((code, ['%s.1.%d batch %d' % (code[0], k, k)] if code[0] in '245' else ['batch %d' % k, 'second line']))
+    script += [('250', ['2.0.0 sync']), ('250', ['2.0.0 reset', 'second']), ('221', ['2.0.0 bye'])]
+    peer = ReactivePeer(script, case['chunks'], lmtp)
+    client = (LmtpClient if lmtp else Client)(peer, ('peer', 25))
+    desc = 'badcode %r' % (case,)
+    returned = {}
+    try:
+        returned[0] = client.get_banner()
+        returned[1] = (client.lhlo if lmtp else client.ehlo)('client.example')
+        if 'PIPELINING' not in client.extensions:
+            return [('C10:pipelining-not-seen', desc)]
+        returned[2] = client.mailfrom('s@x.org')
+        for k in range(n):
+            returned[3 + k] = client.rcptto('r%d@y.org' % k)
+        try:
+            if sync == 'rset':
+                client.rset()
+            else:
+                client.custom_command(b'NOOP')
+        except BadReply:
+            pass
+        else:
+            return [('C10:non-smtp-code-accepted', desc)]
+        returned[4 + n] = client.rset()
+        returned[5 + n] = client.quit()
+        client._flush_pipeline()
+    except WouldBlockForever:
+        return [('C10:read-past-owed-replies:after-bad-code', '%s: recv() although every owed reply had been delivered' % desc)]
+    except Exception as e:
+        return [('C10:client-exception:%s' % type(e).__name__, '%s: %r' % (desc, e))]
+    out = []
+    for slot, rep in sorted(returned.items()):
+        if slot == 2 + bad:
+            continue
+        code, lines = script[slot]
+        want = lines[0] if slot == 1 else '\r\n'.join(lines)
+        if rep.code != code or rep.message != want:
+            out.append(('C10:reply-mispaired:after-bad-code',
+                        '%s: the reply object of slot %d holds (%r, %r), the server answered (%r, %r)'
+                        % (desc, slot, rep.code, (rep.message or '')[:40], code, want[:40])))
+            break
+    if not out and peer.outbuf:
+        out.append(('C10:unread-replies', '%s: %r left unread' % (desc, peer.outbuf[:60])))
+    return out
+
+
+def badcode_cases():
+    for lmtp in (False, True):
+        for n in (1, 2, 3):
+            for bad in range(n + 1):
+                for code in ('650', '099', '999'):
+                    for sync in ('rset', 'noop'):
+                        for chunks in ([4096], [1], [7, 3]):
+                            yield {'kind': 'badcode', 'lmtp': lmtp, 'n': n, 'bad': bad, 'code': code, 'sync': sync, 'chunks': chunks}
+
+
 def case_accepted_rcpts(returned):
     """Addresses of the 2xx RCPT replies since the last reset point (reference for LMTP pairing)."""
     acc = []
@@ -379,6 +443,10 @@ def case_strategy(draw):
 
 
 def run_shard(ctx):
+    for index, bc in enumerate(badcode_cases()):
+        if ctx.mine(index):
+            ctx.record(repr(bc), bc['bad'] < bc['n'], labels=['bad-code-inside-a-pipelined-batch'], case=bc, failures=run_badcode(bc))
+
     def one(case):
         f, nt = run_case(case)
         labels = ['lmtp' if case['lmtp'] else 'smtp', 'pipelining' if case['pipelining'] else 'no-pipelining',
@@ -395,6 +463,11 @@ def run_shard(ctx):
 
 
 def replay(case):
+    if case.get('kind') == 'badcode':
+        try:
+            return run_badcode(case)
+        except (KeyError, ValueError, TypeError):
+            return []
     if 'pair' in case:
         try:
             a, b = [_sanitise(c) for c in case['pair']]
